@@ -36,6 +36,46 @@ def lock_regions(fn):
     return out
 
 
+def liveness_blocks(fn, region):
+    """blocks (inside region) whose call tests whether the entry's buffer is alive: Weak::upgrade / strong_count called
+    directly, or handed as a function item to a combinator (`.and_then(Weak::upgrade)`)"""
+    out = set()
+    for i, cal, gen, t in D.mir_calls(fn):
+        if i not in region:
+            continue
+        if cal and LIVENESS_RX.search(cal):
+            out.add(i)
+        elif any(a.get("k") == "const" and a.get("fn") and LIVENESS_RX.search(a["fn"]) for a in t.get("args", [])):
+            out.add(i)
+    return out
+
+
+def some_edges(fn, cfg, blocks):
+    """targets reached when the Option produced by one of `blocks` (call blocks) is Some"""
+    out = set()
+    dests = {cfg.blocks[b]["term"]["dest"]["l"] for b in blocks if cfg.blocks[b]["term"].get("dest")}
+    # follow plain moves of the result
+    for _ in range(3):
+        for bb in cfg.blocks:
+            for st in bb["stmts"]:
+                if st["k"] == "assign" and st.get("rk") == "use" and st.get("ops") and st["ops"][0].get("k") == "place" and st["ops"][0]["l"] in dests and not st["ops"][0].get("proj") and not st["lhs"].get("proj"):
+                    dests.add(st["lhs"]["l"])
+    for bb in cfg.blocks:
+        dl = None
+        for st in bb["stmts"]:
+            if st["k"] == "assign" and st.get("rk") == "discr" and st.get("ops") and st["ops"][0].get("l") in dests:
+                dl = st["lhs"]["l"]
+        t = bb["term"]
+        if dl is not None and t["k"] == "switch" and t.get("discr", {}).get("l") == dl:
+            vals, tg = t.get("vals", []), t.get("targets", [])
+            for v, b in zip(vals, tg):
+                if v == "1":
+                    out.add(b)
+            if vals == ["0"] and len(tg) == 2:
+                out.add(tg[1])
+    return out
+
+
 def run(c, prog):
     fns = [f for f in prog.fns.values() if f.path.startswith(MOD) or f.path.startswith(f"<{MOD}")]
     locking = [f for f in fns if f.mir and lock_regions(f)]
@@ -46,7 +86,7 @@ def run(c, prog):
     for fn in sorted(locking, key=lambda f: f.path):
         for lock_bb, region, drops, cfg in lock_regions(fn):
             dom = cfg.dominators()
-            live = {i for i, cal, gen, t in D.mir_calls(fn) if cal and LIVENESS_RX.search(cal) and i in region}
+            live = liveness_blocks(fn, region)
             for i, cal, gen, t in D.mir_calls(fn):
                 if not cal or i not in region:
                     continue
@@ -71,7 +111,7 @@ def run(c, prog):
         for i, cal, gen, t in D.mir_calls(fn):
             if cal and (REMOVE_RX.search(cal) or VACANT_RX.search(cal)) and i not in regions_all:
                 c.violation(R, f"{fn.path}|{core.short(cal)}|outside-lock", f"{fn.path}: `{core.short(cal)}` is outside the critical section", t.get("sp", ""))
-    c.floor(R, n_mut, 3, "intern-table mutation sites")
+    c.floor(R, n_mut, 2, "intern-table mutation sites (>= one removal in Drop, one insertion in new)")
     # the static is used only by the locking functions
     users = set()
     for f in prog.fns.values():
@@ -193,7 +233,7 @@ def run(c, prog):
         c.violation(R, "fields|public", "SharedString has public fields", a["sp"], instance="fields-private")
 
     R = "C18.new"
-    c.rule(R, "SharedString::new: Occupied & live => share the existing buffer; Occupied & dead => replace the weak in place; Vacant => insert; all under one lock")
+    c.rule(R, "SharedString::new (MIR, inside its single critical section): the table entry's liveness is tested (Weak::upgrade); the path on which it is alive shares the existing buffer and writes nothing; every other path to the end of the section writes a fresh weak handle into the table")
     new = prog.fn(SS + "::new")
     regs = lock_regions(new)
     if len(regs) == 1:
@@ -201,35 +241,21 @@ def run(c, prog):
     else:
         c.violation(R, "new|sections", f"SharedString::new takes the lock {len(regs)} times; lookup and insert must share one critical section (two threads could both miss and both insert)", new.sp, instance="new:one-critical-section")
 
-    def role(n):
-        n0 = core.strip(n)
-        return core.fingerprint(n0, 3)
-    m = None
-    for n in core.walk_fn(new):
-        if n.get("k") == "Match" and n.get("src") == "Normal" and core.strip(n["e"]).get("m") == "entry":
-            m = n
     ok = False
     detail = {}
-    if m is not None:
-        for arm in m["arms"]:
-            ps = core.pat_str(arm["pat"])
-            if "Occupied" in ps:
-                inner = core.strip(arm["body"])
-                if inner.get("k") == "Match" and core.strip(inner["e"]).get("m") == "upgrade":
-                    for a2 in inner["arms"]:
-                        p2 = core.pat_str(a2["pat"])
-                        calls = [x["m"] for x in core.walk(a2["body"]) if x.get("k") == "MethodCall"]
-                        if "Some" in p2:
-                            detail["occupied-live"] = (core.strip(a2["body"]).get("k") == "Path" or (core.strip(a2["body"]).get("k") == "Block" and not calls)) and "insert" not in calls
-                        elif "None" in p2:
-                            detail["occupied-dead"] = "insert" in calls
-            elif "Vacant" in ps:
-                calls = [x["m"] for x in core.walk(arm["body"]) if x.get("k") == "MethodCall"]
-                detail["vacant"] = "insert" in calls
-        ok = detail == {"occupied-live": True, "occupied-dead": True, "vacant": True}
+    if len(regs) == 1:
+        lock_bb, region, drops, cfg = regs[0]
+        live = liveness_blocks(new, region)
+        live_edges = some_edges(new, cfg, live) & region
+        writes = {i for i, cal, gen, t in D.mir_calls(new) if cal and i in region and (VACANT_RX.search(cal) or re.search(r"(HashMap::<K, V, S(, A)?>|OccupiedEntry::<'a, K, V(, A)?>)::insert$", cal))}
+        starts = cfg.blocks[lock_bb]["term"].get("targets", [])
+        detail["liveness-test"] = bool(live)
+        detail["live=>share"] = bool(live_edges) and not any(w in cfg.reachable_from(e) for e in live_edges for w in writes)
+        detail["dead-or-absent=>insert"] = bool(writes) and bool(live_edges) and all(cfg.must_pass(s0, writes | live_edges, drops | set(cfg.returns)) for s0 in starts)
+        ok = all(detail.values())
     if ok:
         c.ok(R, "new:table", 3)
     else:
-        c.violation(R, "new|table", f"SharedString::new no longer follows the upgrade-or-insert table under the entry API: {detail}", new.sp, instance="new:table")
+        c.violation(R, "new|table", f"SharedString::new no longer follows `entry live => share its buffer; entry dead or absent => write a fresh weak handle into the table` on every path of the critical section: {detail}", new.sp, instance="new:table")
     c.sample({"rule": "C18", "lock_regions": {f.path: [{"lock_bb": lb, "region": sorted(r), "guard_drops": sorted(d)} for lb, r, d, _ in lock_regions(f)] for f in locking}})
     c.not_decided += ["exhaustive interleavings (model checking is another family)", "emptiness of the table after quiescence is argued from C18.cta, not explored"]
